@@ -1,22 +1,28 @@
 (** C22 — printing a program and reparsing it gives back an equivalent program.
-    Proved for the small core fragment (see Text/RoundTrip.v for what it contains and what is
-    only tested end-to-end); hence the suffix [_partial]. *)
+    Proved for the core fragment described in Text/RoundTrip.v; what lies outside it (variances,
+    reprs, const/int/float parameters, arrays, associated types and equality bounds, fn pointers,
+    dyn, opaque types, fn definitions, lang attributes) is only tested end-to-end: hence the
+    suffix [_partial]. *)
 From Coq Require Import List.
-From Chalk Require Import Text.Syntax22 Text.Print Text.Parse Text.RoundTripAst Text.RoundTripIr Text.RoundTrip.
+From Chalk Require Import Text.Syntax22 Text.Print Text.Parse Text.RoundTripAst Text.RoundTripIr Text.RoundTrip Text.Fuel.
 
-Theorem parse_print_partial : forall p fuel,
+(** executable parser, fuel = number of tokens *)
+Theorem parse_print_partial : forall p, wf p -> parse (print p) = Some (norm p).
+Proof. exact Chalk.Text.Fuel.parse_print. Qed.
+Check parse_print_partial : forall p, wf p -> parse (print p) = Some (norm p).
+
+Theorem print_idempotent_partial : forall p p',
+  wf p -> parse (print p) = Some p' -> print p' = print p /\ parse (print p') = Some p'.
+Proof. exact Chalk.Text.Fuel.print_idempotent. Qed.
+Check print_idempotent_partial : forall p p',
+  wf p -> parse (print p) = Some p' -> print p' = print p /\ parse (print p') = Some p'.
+
+(** any sufficient fuel *)
+Theorem parse_print_fuel_partial : forall p fuel,
   wf p -> need p <= fuel -> parse_fuel fuel (print p) = Some (norm p).
 Proof. exact parse_print_small. Qed.
-Check parse_print_partial : forall p fuel,
+Check parse_print_fuel_partial : forall p fuel,
   wf p -> need p <= fuel -> parse_fuel fuel (print p) = Some (norm p).
-
-Theorem print_idempotent_partial : forall p p' fuel,
-  wf p -> need p <= fuel -> parse_fuel fuel (print p) = Some p' ->
-  print p' = print p /\ parse_fuel fuel (print p') = Some p'.
-Proof. exact print_idempotent_small. Qed.
-Check print_idempotent_partial : forall p p' fuel,
-  wf p -> need p <= fuel -> parse_fuel fuel (print p) = Some p' ->
-  print p' = print p /\ parse_fuel fuel (print p') = Some p'.
 
 (** the two halves: grammar (any surface program) and naming scheme (well-formed lowered programs) *)
 Theorem parse_print_ast : forall a fuel,
